@@ -195,7 +195,9 @@ def handle (j : Json) : Json :=
     | some as =>
       let r := taskExecute as
       Json.mkObj [("outcome", Json.str (outcomeStr r.outcome)), ("result", resJson r.result),
-                  ("values", valsJson r.values), ("ran", toJson r.ran), ("ares", mkArr (as.map aresJson))]
+                  ("values", valsJson r.values), ("ran", toJson r.ran), ("ares", mkArr (as.map aresJson)),
+                  ("teardown", Json.mkObj [("outcome", Json.str (outcomeStr (teardownRun 0 as).1)),
+                                           ("ran", toJson (teardownRun 0 as).2)])]
   | "route" =>
     let v : Option Nat := match jobj j "v" with | .null => none | x => some (asNat x)
     let live := getOutErr v
